@@ -869,6 +869,10 @@ func withdrawMonitor(out *Out, h int, e *Env, ix *coreIx, pre housePre, creator,
 		}
 		grantLiveCheck(out, h, e, pd, creator, 1, w, key)
 	}
+	// C04 "each participation is paid exactly once": a participation that was already paid out gets nothing more
+	if pre.hasPart && pre.part.IsSettled {
+		failOnce(out, h, "C04", "paid_once", "withdrawal-after-payout", key, fmt.Sprintf("participation %d of market %d was already paid out (returned %s) and now withdrew liquidity again", idx, uidN(market), pre.part.ReturnedAmount))
+	}
 	// count
 	dep, found := e.App.HouseKeeper.GetDeposit(e.Ctx, pre.part.ParticipantAddress, market, idx)
 	if found && dep.WithdrawalCount > e.App.HouseKeeper.GetMaxWithdrawalCount(e.Ctx) {
